@@ -180,6 +180,9 @@ func FMul(a, b uint16) uint16 {
 // FInv is the table-driven inverse (a != 0).
 func FInv(a uint16) uint16 { return fexp[(65535-flog[a])%65535] }
 
+// Log is the discrete logarithm of a != 0 to the base x (the generator 2), from the reference tables.
+func Log(a uint16) int { return int(flog[a]) }
+
 // FPow is the table-driven power.
 func FPow(a uint16, p uint64) uint16 {
 	if p == 0 {
